@@ -355,6 +355,39 @@ def _run(tier, seed, t0, REPO):
                     check_single('apply_theorem', th_name, prev_ths, origin)
                     check_single('apply_theorem_for', (th_name, inst), prev_ths, origin)
                     check_single('apply_theorem_for', (th_name, fun_only), prev_ths, origin + ' (functions only)')
+    # (E') first-order theorems applied to premises / instantiations that are NOT beta-normal (a redex `(%x. x) V` for
+    # every schematic variable): evaluation and expansion must normalise - or not normalise - alike
+    basic.load_theory('logic_base')
+    context.set_context(None, vars={})
+    rng_r = random.Random('%s/redex' % seed)
+    fo_names = []
+    for nm_ in sorted(theory.thy.get_data('theorems').keys()):
+        try:
+            th_ = theory.get_theorem(nm_)
+            if th_.prop.get_svars() and not any(v.T.is_fun() for v in th_.prop.get_svars()):
+                fo_names.append(nm_)
+        except Exception:
+            pass
+    if len(fo_names) > (40 if tier == 'quick' else 200):
+        fo_names = rng_r.sample(fo_names, 40 if tier == 'quick' else 200)
+    for th_name in fo_names:
+        try:
+            th = theory.get_theorem(th_name)
+            inst = Inst()
+            for stv in th.prop.get_stvars():
+                inst.tyinst[stv.name] = TVar(stv.name)
+            for v in th.prop.get_svars():
+                T = v.T.subst(inst.tyinst)
+                bv = Var('bv_' + v.name, T)
+                inst[v.name] = Lambda(bv, bv)(Var('V_' + v.name, T))
+            As, C = th.prop.subst(inst).strip_implies()
+        except Exception:
+            continue
+        for k in range(0, min(len(As), 3) + 1):
+            prev_ths = [Thm(A) for A in As[:k]]
+            origin = 'logic_base.%s with a beta-redex for every schematic variable, %d premises' % (th_name, k)
+            check_single('apply_theorem', th_name, prev_ths, origin)
+            check_single('apply_theorem_for', (th_name, inst), prev_ths, origin)
     basic.load_theory('logic_base')
 
     # ---------------------------------------------------------------- (D) veriT rules: expansion vs evaluation
